@@ -44,6 +44,7 @@ import subprocess
 import sys
 import textwrap
 import threading
+import types
 
 import pyglove as pg
 from pyvc.bounded import Recorder, rng
@@ -85,7 +86,61 @@ class C(pg.Object):
   allow_symbolic_assignment = True
 
 
-HEAD = "__name__ = 'c01_witness'\nimport copy\nimport pyglove as pg\n"
+def _boom(updates):
+  """An onchange callback that fails: the mutation has been done by then."""
+  del updates
+  raise RuntimeError('onchange callback failed')
+
+
+@pg.members([
+    ('u', pg.typing.Int()),                       # required, no default
+    ('x', pg.typing.Any(default=None)),
+])
+class R(pg.Object):
+  """Validates in `_on_bound`, i.e. after the new values have been stored."""
+  allow_symbolic_assignment = True
+
+  def _on_bound(self):
+    super()._on_bound()
+    if self.u < 0:
+      raise ValueError('u must not be negative')
+
+
+@pg.members([
+    ('q', pg.typing.Dict([
+        ('name', pg.typing.Str(default='n')),
+        ('opt', pg.typing.Object(A)),             # required, no default
+        ('sub', pg.typing.Dict([('steps', pg.typing.List(pg.typing.Any()))])),
+    ])),
+    ('l', pg.typing.List(pg.typing.Dict([('v', pg.typing.Any())]),
+                         min_size=2, max_size=3)),
+    ('e', pg.typing.List(pg.typing.Object(A), default=[])),
+    ('o', pg.typing.Object(R)),
+])
+class S(pg.Object):
+  """Members whose specs refuse operations: required fields without default,
+  size bounds, element types, validation after binding."""
+  allow_symbolic_assignment = True
+
+
+# NOTE: `rebind(fn)` inspects the signature of `fn` through the module named
+# by the `__name__` of its globals, which therefore has to exist.
+HEAD = ("__name__ = 'c01_witness'\nimport copy, sys, types\n"
+        "sys.modules.setdefault(__name__, types.ModuleType(__name__))\n"
+        "import pyglove as pg\n")
+CLASS_BOOM = ("def _boom(updates): raise RuntimeError('onchange callback failed')\n")
+CLASS_R = ("@pg.members([('u', pg.typing.Int()), ('x', pg.typing.Any(default=None))])\n"
+           "class R(pg.Object):\n"
+           "  allow_symbolic_assignment = True\n"
+           "  def _on_bound(self):\n"
+           "    super()._on_bound()\n"
+           "    if self.u < 0: raise ValueError('u must not be negative')\n")
+CLASS_S = ("T = pg.typing\n"
+           "@pg.members([('q', T.Dict([('name', T.Str(default='n')), ('opt', T.Object(A)), "
+           "('sub', T.Dict([('steps', T.List(T.Any()))]))])), "
+           "('l', T.List(T.Dict([('v', T.Any())]), min_size=2, max_size=3)), "
+           "('e', T.List(T.Object(A), default=[])), ('o', T.Object(R))])\n"
+           "class S(pg.Object): allow_symbolic_assignment = True\n")
 CLASS_W = ("@pg.members([(pg.typing.StrKey(), pg.typing.Any())])\n"
            "class W(pg.Object): allow_symbolic_assignment = True\n")
 CLASS_C = ("T = pg.typing\n"
@@ -125,7 +180,27 @@ TREES = {
         "r = B(l=[{'v': {'i': 1}}, {'v': [{'c': 1}]}], "
         "d={'n': {'m': {'mm': 1}}, 'k': [{'z': 1}, 2]}, a=A(x={'p': 1}))\n"
         + _EXT),
+    # Sibling nodes that are EQUAL BY VALUE but distinct objects (palindromic
+    # lists, dict values / object members with the same content; the typed
+    # lists of tree 'strict' hold twins as well): a node is identified by the
+    # object, never by its value.
+    'twins': (
+        "r = pg.Dict(l=[{'x': {'i': 1}}, A(x=[{'q': 1}]), 7, A(x=[{'q': 1}]), {'x': {'i': 1}}], "
+        "p=[{'c': [1]}, {'c': [1]}], "
+        "d={'m': {'n': {'z': 1}}, 'k': {'n': {'z': 1}}}, "
+        "o=A(x={'u': [1]}, y={'u': [1]}))\n" + _EXT),
+    # Containers that REFUSE operations, before, midway or after the mutation:
+    # required fields without a default, list size bounds (the list `g.l` is at
+    # its min size, one below its max size), element types, an object that
+    # validates in _on_bound, containers whose onchange callback raises.
+    'strict': (
+        "r = pg.Dict(g=S(q={'opt': A(x={'p': 1}), 'sub': {'steps': [{'at': 1}]}}, "
+        "l=[{'v': {'i': 1}}, {'v': {'i': 1}}], e=[A(x={'f': 1}), A(x={'f': 1})], "
+        "o=R(u=1, x={'w': [1]})), "
+        "cl=pg.List([{'a': 1}, {'b': 2}, 7], onchange_callback=_boom), "
+        "cd=pg.Dict(a={'n': 1}, b={'n': 2}, onchange_callback=_boom))\n" + _EXT),
 }
+EXTRA_KINDS = ('twins', 'strict')
 
 
 BASE_KINDS = tuple(TREES)
@@ -210,13 +285,15 @@ def key_family(kind):
 
 
 class Op:
-  __slots__ = ('group', 'label', 'src', '_code', 'core', 'vclass', 'tid')
+  __slots__ = ('group', 'label', 'src', '_code', 'core', 'xcore', 'vclass', 'tid')
 
-  def __init__(self, group, label, src, core=False, vclass=None, tid=None):
+  def __init__(self, group, label, src, core=False, vclass=None, tid=None,
+               xcore=False):
     self.group = group
     self.label = label
     self.src = src
     self.core = core
+    self.xcore = xcore      # core in the trees of EXTRA_KINDS only
     self.vclass = vclass    # class of the inserted value (None: no value)
     self.tid = tid          # position in the alphabet, the same for every key class
     self._code = None
@@ -243,6 +320,9 @@ VALUES = [
     ('parented-in-tree', '{IN}'),
     ('detached', 's'),
     ('fresh-holding-parented', 'pg.Dict(w=t, u=[t])'),
+    # a distinct node that is equal BY VALUE to the one stored at the slot the
+    # operation addresses (first element / existing key / first field)
+    ('equal-to-stored', '{EQ}'),
 ]
 # The same classes carrying the keys of a key class, plus a value that was
 # constructed with a root_path of its own (it must be re-addressed).
@@ -265,9 +345,21 @@ _FN = ('lambda k, v: pg.Dict(rb=pg.Dict(q=1)) if isinstance(v, int) else v, '
        'raise_on_no_change=False')
 
 
-def _vals(intree, values=None):
+def _pick(*labels):
+  return [v for v in VALUES if v[0] in labels]
+
+
+def _vals(intree, values=None, eq=None, wrap=None):
+  """(label, source) of the values to insert.  `eq`: expression of the stored
+  value a distinct equal copy is made of; `wrap`: format that makes a value
+  acceptable to the value spec of the target (e.g. "{'v': %s}")."""
   for label, src in (values or VALUES):
-    yield label, src.replace('{IN}', intree)
+    if '{EQ}' in src:
+      if eq is not None:
+        yield label, src.replace('{EQ}', f'pg.clone({eq}, deep=True)')
+      continue
+    src = src.replace('{IN}', intree)
+    yield label, (wrap % src if wrap else src)
 
 
 def _ident(k):
@@ -306,18 +398,24 @@ class _Adder:
     self.vclass = None
     self.count = {}
 
-  def __call__(self, group, label, src, core=False):
+  def __call__(self, group, label, src, core=False, xcore=False):
     g = self.prefix + group
     n = self.count[(g, label)] = self.count.get((g, label), 0) + 1
     self.ops.append(Op(g, label, src, core and self.core_target, self.vclass,
-                       (self.target, g, label, n)))
+                       (self.target, g, label, n),
+                       xcore=xcore and self.core_target))
 
 
-def list_ops(L, intree, core_target=False, values=None, target=None):
-  """Every mutator of the list reachable through expression `L`."""
+def list_ops(L, intree, core_target=False, values=None, target=None,
+             wrap=None, bad=()):
+  """Every mutator of the list reachable through expression `L`.
+
+  wrap: format that makes a value acceptable as an element (typed lists);
+  bad: sources of values the element spec refuses (none for untyped lists).
+  """
   add = _Adder('list.', target or L, core_target)
 
-  for vl, v in _vals(intree, values):
+  for vl, v in _vals(intree, values, f'{L}[0]', wrap):
     add.vclass = vl
     c = vl in CORE_VALUES
     f = vl == 'fresh'
@@ -383,6 +481,31 @@ def list_ops(L, intree, core_target=False, values=None, target=None):
   add('sort', 'key', f'{L}.sort(key=str)')
   add('sort', 'key-reverse', f'{L}.sort(key=str, reverse=True)', True)
   add('reverse', '', f'{L}.reverse()', True)
+  # Reorderings that are decided by the position / identity of the elements,
+  # not by their value (elements that are equal by value trade places; over a
+  # palindrome the content reads the same afterwards).
+  add('sort', 'key-reversing-positions',
+      f'_n = iter(range(len({L}), 0, -1))\n{L}.sort(key=lambda v: next(_n))',
+      xcore=True)
+  add('sort', 'key-rotating-positions',
+      f'_n = iter(range(len({L})))\n{L}.sort(key=lambda v: next(_n) or 99)',
+      xcore=True)
+  add('sort', 'key-constant', f'{L}.sort(key=lambda v: 0)')
+  add('sort', 'key-constant-reverse', f'{L}.sort(key=lambda v: 0, reverse=True)')
+  add('reverse', 'twice', f'{L}.reverse()\n{L}.reverse()')
+  add('setitem-slice', 'reversed-self', f'{L}[:] = list({L})[::-1]', xcore=True)
+  add('setitem-slice', 'step-1-self', f'{L}[::-1] = list({L})')
+  add('rebind-set', 'reversed-self',
+      f'{L}.rebind({{i: v for i, v in enumerate(list({L})[::-1])}}, raise_on_no_change=False)')
+  # A sort that fails: before anything moved (incomparable elements, a key
+  # function that raises) or after some elements have moved (the keys turn
+  # out to be incomparable midway; needs >= 4 elements to move anything).
+  add('sort', 'no-key', f'{L}.sort()')
+  add('sort', 'key-raises',
+      f'_n = iter([1, 0, 1, 1, 1, 1, 1, 1, 1])\n{L}.sort(key=lambda v: 1 // next(_n))')
+  add('sort', 'keys-incomparable-midway',
+      f"_n = iter([2, 1, 3, 'x', 4, 5, 6, 7, 8])\n{L}.sort(key=lambda v: next(_n))",
+      xcore=True)
   add('setitem-slice', 'delete-two', f'{L}[0:2] = []', True)
   add('setitem-slice', 'delete-all', f'{L}[:] = []')
   add('setitem-slice', 'self', f'{L}[:] = list({L})')
@@ -406,13 +529,38 @@ def list_ops(L, intree, core_target=False, values=None, target=None):
   add('extend', 'own-children', f'{L}.extend([{L}[0], {L}[1]])')
   add('append', 'own-last-child', f'{L}.append({L}[-1])')
   add('use_value_spec', '', f'{L}.use_value_spec(pg.typing.List(pg.typing.Any()))')
+  add('use_value_spec', 'refusing-elements',
+      f'{L}.use_value_spec(pg.typing.List(pg.typing.Int()))')
+  add('use_value_spec', 'refusing-later-element',
+      f'{L}.use_value_spec(pg.typing.List(pg.typing.Union([pg.typing.Dict(), pg.typing.Int()])))')
+  add('use_value_spec', 'refusing-size',
+      f'{L}.use_value_spec(pg.typing.List(pg.typing.Any(), max_size=1))')
   add('append@sealed', '',
       f'{L}.seal()\ntry: {L}.append(pg.Dict(z=1))\nfinally: {L}.seal(False)')
+  # Batches that the value spec refuses midway (typed lists only).
+  F = (wrap or '%s') % 'pg.Dict(n=pg.Dict(m=1))'
+  for i, b in enumerate(bad):
+    add.vclass = f'invalid{i}'
+    add('setitem', f'invalid{i}', f'{L}[0] = {b}', xcore=True)
+    add('append', f'invalid{i}', f'{L}.append({b})')
+    add('insert', f'invalid{i}', f'{L}.insert(0, {b})')
+    add('extend', f'valid-then-invalid{i}', f'{L}.extend([{F}, {b}])', xcore=True)
+    add('iadd', f'valid-then-invalid{i}', f'{L} += [{F}, {b}]')
+    add('setitem-slice', f'same/valid-then-invalid{i}', f'{L}[0:2] = [{F}, {b}]', xcore=True)
+    add('setitem-slice', f'insert/valid-then-invalid{i}', f'{L}[1:1] = [{F}, {b}]')
+    add('setitem-slice', f'step2/valid-then-invalid{i}', f'{L}[0:3:2] = [{F}, {b}]')
+    add('rebind-multi', f'valid-then-invalid{i}', f'{L}.rebind({{0: {b}, 1: {F}}})', xcore=True)
+    add('rebind-multi', f'invalid-then-valid{i}', f'{L}.rebind({{0: {F}, 1: {b}}})')
+    add('rebind-multi', f'insert+invalid{i}',
+        f'{L}.rebind({{0: {b}, 1: pg.Insertion({F})}})', xcore=True)
+    add('rebind-multi', f'delete+invalid{i}',
+        f'{L}.rebind({{0: {b}, 1: pg.MISSING_VALUE}})')
+  add.vclass = None
   return add.ops
 
 
 def dict_ops(D, intree, core_target=False, keys=('a', 'b'), nk='z', nk2='y2',
-             values=None, target=None):
+             values=None, target=None, wrap=None, bad=()):
   """Every mutator of the dict reachable through expression `D`.
 
   keys[0]: an existing key holding a symbolic node; keys[1]: another existing
@@ -421,12 +569,16 @@ def dict_ops(D, intree, core_target=False, keys=('a', 'b'), nk='z', nk2='y2',
   one-key `pg.KeyPath` unless it is identifier-like; the plain-string and the
   formatted-path spellings are separate operations (they may address
   something else or raise, but must leave well-formed trees).
+
+  wrap: format that makes a value acceptable for keys[0] (typed dicts); bad:
+  sources of values that the field of keys[1] (of keys[0] if there is no
+  keys[1]) refuses.
   """
   add = _Adder('dict.', target or D, core_target)
   k0, k1 = keys
   p0, pn, pn2 = _pathkey(k0), _pathkey(nk), _pathkey(nk2)
 
-  for vl, v in _vals(intree, values):
+  for vl, v in _vals(intree, values, f'{D}[{k0!r}]', wrap):
     add.vclass = vl
     c = vl in CORE_VALUES
     f = vl == 'fresh'
@@ -481,6 +633,35 @@ def dict_ops(D, intree, core_target=False, keys=('a', 'b'), nk='z', nk2='y2',
   add('update', 'symbolic-dict-with-children', f'{D}.update(ext)')
   add('ior', 'symbolic-dict-with-children', f'{D} |= ext')
   add('use_value_spec', '', f'{D}.use_value_spec(pg.typing.Dict())')
+  add('use_value_spec', 'refusing-field',
+      f'{D}.use_value_spec(pg.typing.Dict([({k0!r}, pg.typing.Int()), '
+      f'(pg.typing.StrKey(), pg.typing.Any())]))')
+  if k1:
+    add('use_value_spec', 'refusing-later-field',
+        f'{D}.use_value_spec(pg.typing.Dict([({k0!r}, pg.typing.Any()), '
+        f'({k1!r}, pg.typing.Int()), (pg.typing.StrKey(), pg.typing.Any())]))')
+  add('use_value_spec', 'refusing-missing-required',
+      f"{D}.use_value_spec(pg.typing.Dict([(pg.typing.StrKey(), pg.typing.Any()), "
+      f"('required_key', pg.typing.Dict([('w', pg.typing.Int())]))]))")
+  # Updates that the value spec refuses, alone or midway (typed dicts only).
+  F = (wrap or '%s') % 'pg.Dict(n=pg.Dict(m=1))'
+  kb = k1 or k0
+  pb = _pathkey(kb)
+  for i, b in enumerate(bad):
+    add.vclass = f'invalid{i}'
+    add('setitem', f'invalid{i}', f'{D}[{kb!r}] = {b}', xcore=True)
+    add('rebind', f'invalid{i}', f'{D}.rebind({{{pb}: {b}}})')
+    if k1:
+      add('update', f'valid-then-invalid{i}',
+          f'{D}.update({{{k0!r}: {F}, {k1!r}: {b}}})', xcore=True)
+      add('update', f'invalid-then-valid{i}',
+          f'{D}.update({{{k1!r}: {b}, {k0!r}: {F}}})')
+      add('ior', f'valid-then-invalid{i}', f'{D} |= {{{k0!r}: {F}, {k1!r}: {b}}}')
+      add('rebind-multi', f'valid+invalid{i}',
+          f'{D}.rebind({{{p0}: {F}, {pb}: {b}}})', xcore=True)
+      add('rebind-multi', f'delete+invalid{i}',
+          f'{D}.rebind({{{p0}: pg.MISSING_VALUE, {pb}: {b}}})')
+  add.vclass = None
   add('setitem@sealed', '',
       f"{D}.seal()\ntry: {D}[{nk!r}] = pg.Dict(z=1)\nfinally: {D}.seal(False)")
   if not _ident(k0) and isinstance(k0, str):
@@ -499,9 +680,11 @@ def dict_ops(D, intree, core_target=False, keys=('a', 'b'), nk='z', nk2='y2',
 
 
 def object_ops(O, intree, core_target=False, fields=('x', 'y'), values=None,
-               target=None):
+               target=None, wrap=None, bad=()):
   """Every mutator of the object `O`; `fields` may be arbitrary attribute
-  names (objects that take any keyword)."""
+  names (objects that take any keyword).  wrap: format that makes a value
+  acceptable for fields[0]; bad: sources of values that fields[1] refuses (by
+  its value spec, or by the validation in `_on_bound`)."""
   add = _Adder('object.', target or O, core_target)
   f0, f1 = fields
   g0, g1 = _getattr(O, f0), _getattr(O, f1)
@@ -512,7 +695,7 @@ def object_ops(O, intree, core_target=False, fields=('x', 'y'), values=None,
     return (f'{O}.rebind({{' + ', '.join(f'{_pathkey(k)}: {v}' for k, v in pairs)
             + '}' + extra + ')')
 
-  for vl, v in _vals(intree, values):
+  for vl, v in _vals(intree, values, g0, wrap):
     add.vclass = vl
     c = vl in CORE_VALUES
     add('setattr', f'{vl}', _setattr(O, f0, v), c)
@@ -538,6 +721,20 @@ def object_ops(O, intree, core_target=False, fields=('x', 'y'), values=None,
   add('rebind-fn', '', f'{O}.rebind({_FN})')
   add('setattr@sealed', '',
       f'{O}.seal()\ntry: {_setattr(O, f0, "pg.Dict(z=1)")}\nfinally: {O}.seal(False)')
+  # The Dict that holds the members (reset to the defaults, or refused when a
+  # required member has no default).
+  add('sym_init_args-clear', '', f'{O}.sym_init_args.clear()', xcore=True)
+  F = (wrap or '%s') % 'pg.Dict(n=pg.Dict(m=1))'
+  for i, b in enumerate(bad):
+    add.vclass = f'invalid{i}'
+    add('setattr', f'invalid{i}', _setattr(O, f1, b), xcore=True)
+    add('rebind', f'valid+invalid{i}', rb((f0, F), (f1, b)), xcore=True)
+    add('rebind', f'invalid+valid{i}', rb((f1, b), (f0, F)))
+    add('rebind@skip_notification', f'valid+invalid{i}',
+        rb((f0, F), (f1, b), extra=', skip_notification=True'))
+    add('setattr@notify_off', f'invalid{i}',
+        f'with pg.notify_on_change(False): {_setattr(O, f1, b)}')
+  add.vclass = None
   return add.ops
 
 
@@ -613,6 +810,38 @@ def deep_rebind_ops(kind):
     add('several-paths',
         f"r.rebind({{'[0]': pg.Insertion({V}), '[2]': pg.MISSING_VALUE}}, skip_notification=True)",
         ctx='@skip_notification')
+  elif kind == 'twins':
+    add('swap-equal-nodes/list', "r.rebind({'l[0]': r.l[4], 'l[4]': r.l[0]})", True)
+    add('swap-equal-nodes/list', "r.rebind({'l[1]': r.l[3], 'l[3]': r.l[1], 'p[0]': r.p[1], 'p[1]': r.p[0]})")
+    add('swap-equal-nodes/dict', "r.rebind({'d.m': r.d.k, 'd.k': r.d.m})", True)
+    add('swap-equal-nodes/object', "r.rebind({'o.x': r.o.y, 'o.y': r.o.x})", True)
+    add('swap-equal-nodes/nested', "r.rebind({'d.m.n': r.d.k.n, 'd.k.n': r.d.m.n})")
+    add('equal-to-stored',
+        "r.rebind({'l[0]': pg.clone(r.l[0], deep=True), 'd.m': pg.clone(r.d.m, deep=True), "
+        "'o.x': pg.clone(r.o.x, deep=True), 'l[1].x[0]': pg.clone(r.l[1].x[0], deep=True)}, "
+        "raise_on_no_change=False)", True)
+    add('equal-to-sibling',
+        "r.rebind({'l[0]': pg.clone(r.l[4], deep=True), 'd.m': pg.clone(r.d.k, deep=True), "
+        "'o.x': pg.clone(r.o.y, deep=True)}, raise_on_no_change=False)")
+    add('several-paths/insert-delete',
+        f"r.rebind({{'l[0]': pg.Insertion(pg.clone(r.l[0], deep=True)), 'l[4]': pg.MISSING_VALUE, 'p[0]': pg.MISSING_VALUE}})", True)
+  elif kind == 'strict':
+    AV, LV = f'A(x={V})', "{'v': %s}" % V
+    add('valid+invalid/dict', f"r.rebind({{'g.q.opt': {AV}, 'g.q.sub': 5}})", True)
+    add('valid+invalid/dict', f"r.rebind({{'g.q.sub.steps': 5, 'g.q.opt': {AV}}})")
+    add('valid+invalid/list', f"r.rebind({{'g.l[0]': {LV}, 'g.l[1]': 5}})", True)
+    add('valid+invalid/list', f"r.rebind({{'g.e[0]': {AV}, 'g.l[0]': {LV}, 'g.e[1]': 5}})")
+    add('valid+invalid/object', f"r.rebind({{'g.o.x': {V}, 'g.o.u': -1}})", True)
+    add('valid+invalid/object', f"r.rebind({{'g.o': R(u=2, x={V}), 'g.q': {{'opt': 5}}}})", True)
+    add('valid+invalid/across', f"r.rebind({{'cd.a': {V}, 'g.o.x': {V}, 'g.l[0].v': {V}, 'g.q.opt': 5}})", True)
+    add('delete-required', "r.rebind({'g.q.opt': pg.MISSING_VALUE})", True)
+    add('delete-required', f"r.rebind({{'g.o.x': {V}, 'g.l[0].v': pg.MISSING_VALUE}})")
+    add('delete-required', f"r.rebind({{'cd.a': {V}, 'g': pg.MISSING_VALUE}})")
+    add('size-bounds', f"r.rebind({{'g.l[0]': pg.MISSING_VALUE, 'g.o.x': {V}}})", True)
+    add('size-bounds', f"r.rebind({{'g.l[0]': pg.Insertion({LV}), 'g.l[1]': pg.Insertion({LV}), 'g.o.x': {V}}})")
+    add('raising-callback', f"r.rebind({{'cl[0]': {V}, 'cd.a': {V}, 'g.o.x': {V}}})", True)
+    add('raising-callback', f"r.rebind({{'cl[0].a': {V}, 'cd.a.n': {V}}})")
+    add('raising-callback', "r.rebind({'cd.a': r.cd.b, 'cd.b': r.cd.a})")
   else:
     W = "{'v': pg.Dict(n=pg.Dict(m=1))}"
     add('one-path', f"r.rebind({{'l[0].v': {V}}})", True)
@@ -796,9 +1025,37 @@ def alphabet(kind):
     ops.append(Op('list.insert', 'typed/element-with-parent', 'r.l.insert(0, r.l[1])', True))
     ops.append(Op('dict.setattr', 'typed/in-tree-list', 'r.d.k = r.l'))
     ops.append(Op('object.setattr', 'typed/parented-list', 'r.l = ext.j'))
+  elif kind == 'twins':
+    few = _pick('fresh', 'raw', 'detached', 'equal-to-stored')
+    ops += list_ops('r.l', 'r.d.m', True)
+    ops += list_ops('r.p', 'r.d.m', True, values=few)
+    ops += dict_ops('r.d', 'r.l[0]', True, keys=('m', 'k'))
+    ops += object_ops('r.o', 'r.d.m', True)
+  elif kind == 'strict':
+    some = _pick('fresh', 'raw', 'parented-in-tree', 'detached', 'equal-to-stored')
+    few = _pick('fresh', 'detached', 'equal-to-stored')
+    ops += dict_ops('r.g.q', 'r.cd.a', True, keys=('opt', 'sub'), values=some,
+                    wrap='A(x=%s)', bad=('5', "{'steps': 5}"))
+    ops += list_ops('r.g.l', 'r.cd.a', True, values=some, wrap="{'v': %s}",
+                    bad=('5', "{'w': 1}"))
+    ops += list_ops('r.g.e', 'r.cd.a', False, values=few, wrap='A(x=%s)',
+                    bad=("{'nope': 1}", 'R(u=1)'))
+    ops += object_ops('r.g', 'r.cd.a', False, fields=('o', 'q'), values=few,
+                      wrap='R(u=1, x=%s)',
+                      bad=("{'opt': 5}",
+                           "{'opt': A(x=pg.Dict(m=1)), 'sub': {'steps': 5}}"))
+    ops += object_ops('r.g.o', 'r.cd.a', True, fields=('x', 'u'), values=some,
+                      bad=('-1', "'a string'"))
+    ops += [o for o in dict_ops('r.g.l[0]', 'r.cd.a', False, keys=('v', ''),
+                                values=few) if o.vclass in (None, 'fresh')]
+    ops += list_ops('r.cl', 'r.g.q.sub', True, values=few)
+    ops += dict_ops('r.cd', 'r.g.q.sub', False, keys=('a', 'b'), values=few)
   if '/' not in kind:
     ops += deep_rebind_ops(kind)
   ops += whole_tree_ops()
+  if kind in EXTRA_KINDS:
+    for op in ops:
+      op.core = op.core or op.xcore
   seen, out, count = set(), [], {}
   for op in ops:
     if op.tid is None:
@@ -1006,8 +1263,10 @@ class _Watchdog:
     return False
 
 
-_ENV_BASE = {'pg': pg, 'A': A, 'B': B, 'C': C, 'W': W, 'copy': copy,
+_ENV_BASE = {'pg': pg, 'A': A, 'B': B, 'C': C, 'W': W, 'R': R, 'S': S,
+             '_boom': _boom, 'copy': copy,
              '__name__': 'c01_history'}
+sys.modules.setdefault('c01_history', types.ModuleType('c01_history'))
 _SETUP_CODE = {k: compile(v, f'<tree {k}>', 'exec') for k, v in TREES.items()}
 # The first statement of a tree builds `r`, the others build `ext`, `t`, `s`
 # (independent of `r`): a history that mentions none of them runs without.
@@ -1195,10 +1454,15 @@ def _classes_for(body, kind):
   w = ''
   if kind.startswith('ko/'):
     return CLASS_W + CLASS_C + (CLASS_A if 'A(' in body else '')
-  if 'A(' in body or 'B(' in body:
+  strict = re.search(r'\b[RS]\(', body) is not None
+  if 'A(' in body or 'B(' in body or strict:
     w += CLASS_A
   if 'B(' in body:
     w += CLASS_B
+  if strict:
+    w += CLASS_R + CLASS_S
+  if '_boom' in body:
+    w += CLASS_BOOM
   return w
 
 
@@ -1340,12 +1604,22 @@ def drv_histories_exhaustive(tier, seed):
   cores = '/'.join(str(sum(o.core for o in alphabet(k))) for k in BASE_KINDS)
   rec = Recorder(
       'C01', 'tree well-formedness after every step of short histories',
-      scope=('4 trees (mixed Dict/List/Object, Object root, List root, typed '
-             'Object with value specs); alphabet = every list/dict/object '
-             'mutator x 9 value classes x every container of the tree '
+      scope=('6 trees (mixed Dict/List/Object, Object root, List root, typed '
+             'Object with value specs; twins: sibling nodes that are equal by '
+             'value but distinct objects, in palindromic lists / dicts / objects; '
+             'strict: containers that refuse operations before, midway or after '
+             'the mutation -- required fields without default, list size bounds, '
+             'element types, validation in _on_bound, raising onchange '
+             'callbacks); alphabet = every list/dict/object '
+             'mutator (incl. position-driven and failing sorts, batches with a '
+             'refused element, refusing use_value_spec) x 10 value classes '
+             '(incl. a distinct node equal by value to the stored one; 3..5 of '
+             'them on the secondary containers of twins/strict) x every '
+             'container of the tree '
              f'({sizes} statements, of which core: {cores}); all histories of '
              'length 1; length 2: '
-             + ('core x core restricted to pairs with (j - i) % 12 == seed % 12'
+             + ('core x core restricted to pairs with (j - i) % 12 == seed % 12 '
+                '(twins/strict: % 24)'
                 if quick else
                 'core x core, non-core x core[seed%16::16] and the converse; '
                 'length 3: core[seed%8::8]^3')))
@@ -1354,9 +1628,10 @@ def drv_histories_exhaustive(tier, seed):
       ops = alphabet(kind)
       core = [o for o in ops if o.core]
       if quick:
+        m = 24 if kind in EXTRA_KINDS else 12
         _enumerate(rec, kind, ops, [], wd=wd)
         _enumerate(rec, kind, core,
-                   lambda i: core[(i + seed) % 12::12],  # pylint: disable=cell-var-from-loop
+                   lambda i: core[(i + seed) % m::m],  # pylint: disable=cell-var-from-loop
                    wd=wd, record_first=False)
       else:
         _enumerate(rec, kind, ops, [], wd=wd)
@@ -1461,19 +1736,21 @@ def drv_histories_random(tier, seed):
   """Seeded random longer histories (length 3..7), checked after every step."""
   quick = tier == 'quick'
   n = 180 if quick else 4000
+  nx = 90 if quick else 2000      # trees twins / strict
   nkey = 8 if quick else 150
   rec = Recorder(
       'C01', 'tree well-formedness after every step of random histories',
-      scope=f'{n} seeded histories per tree (4 trees) and {nkey} per key-class '
+      scope=f'{n} seeded histories per tree (4 trees), {nx} per tree twins / '
+            f'strict (see drv_histories_exhaustive) and {nkey} per key-class '
             f'tree ({len(KEY_KINDS)} trees, see drv_key_classes) of length 3..7 '
-            'over the full alphabet; on the 4 trees a statement that breaks the '
+            'over the full alphabet; on the 6 trees a statement that breaks the '
             'tree as a single step on the running code is kept with probability '
             '5% only, so that histories get long; failing histories are shrunk greedily')
   with _Watchdog(10) as wd:
     for kind in _initial_trees(Recorder('C01', '', ''), BASE_KINDS + tuple(KEY_KINDS)):
       ops = alphabet(kind)
       r = rng(seed, 'c01-random-' + kind)
-      for _ in range(nkey if '/' in kind else n):
+      for _ in range(nkey if '/' in kind else nx if kind in EXTRA_KINDS else n):
         k = r.randint(3, 7)
         hist = []
         while len(hist) < k:
